@@ -28,7 +28,7 @@ from . import common
 PROPERTY = "C19"
 LEVEL = "model_checking"
 RULE = (
-    "check/parse: 7 grammar sources x 8 constraint sources x 11 input sources (x output flags for parse); solve: grammar x constraint x "
+    "check/parse: 7 grammar sources x 10 constraint sources x 11 input sources (x output flags for parse); solve: grammar x constraint x "
     "{-n, --tree, -d}; repair/mutate: 3 x 3 x 5; pipelines solve->check (stdout lines, -d files, --tree JSON) and parse->check over two "
     "grammars (one whose words end in a newline); one real-process run per contract class; a schema is (command, expected class); non-trivial "
     "iff at least two different exit codes were demanded for the command"
@@ -55,7 +55,7 @@ C2 = ("exists", "<digit>", "d", None, "start", ("smt", ["=", ["v", "d"], ["s", "
 CUNSAT = ("and", C2, ("not", C2))
 
 GRAMMAR_SRC = ["bnf-ok", "bnf-malformed", "bnf-empty", "grammar-opt", "py-ok", "py-no-grammar", "missing"]
-CONSTR_SRC = ["file-c1", "file-unsat", "malformed", "empty-file", "c-once", "c-twice", "file+c", "missing"]
+CONSTR_SRC = ["file-c1", "file-unsat", "malformed", "unknown-type", "unknown-xpath-child", "empty-file", "c-once", "c-twice", "file+c", "missing"]
 INPUT_SRC = ["file-valid", "file-valid-no-newline", "file-syntax-invalid", "file-violating", "file-empty", "file-json-tree", "file-json-invalid-tree", "i-string", "i-empty", "two-inputs", "missing"]
 
 
@@ -121,6 +121,12 @@ def build(d, gsrc, csrc, isrc):
         cons = [CUNSAT]
     elif csrc == "malformed":
         _w(d, "c.isla", "forall <assgn> a in start: (= a")
+        argv.append(os.path.join(d, "c.isla"))
+        problems.add(65)
+        cons = None
+    elif csrc in ("unknown-type", "unknown-xpath-child"):
+        # syntactically fine, but not a constraint over this grammar
+        _w(d, "c.isla", 'exists <value> v in start: (= v "x")' if csrc == "unknown-type" else '<assgn>.<zz> = "A"')
         argv.append(os.path.join(d, "c.isla"))
         problems.add(65)
         cons = None
